@@ -47,6 +47,13 @@ def _resolve_directory(path: Path) -> Path:
         raise InvalidDefinitionError("The location of the file cannot be resolved: %s" % ex, path) from None
 
 
+def _exists(path: Path) -> bool:
+    try:
+        return path.exists()
+    except OSError:  # E.g., a path component that is too long cannot name an existing file.
+        return False
+
+
 class DSDLDefinition(ReadableDSDLFile):
     """
     A DSDL type definition source abstracts the filesystem level details away, presenting a higher-level
@@ -137,7 +144,7 @@ class DSDLDefinition(ReadableDSDLFile):
                 if (
                     len(path_to_root.parts) > 0
                     and path_to_root.parts[-1] == dsdl_path.parts[0]
-                    and (path_to_root.parent / dsdl_path).exists()
+                    and _exists(path_to_root.parent / dsdl_path)
                 ):
                     return path_to_root
 
@@ -199,10 +206,8 @@ class DSDLDefinition(ReadableDSDLFile):
         self._file_path = _resolve_directory(Path(file_path))
         del file_path
 
-        try:
-            exists, is_file = self._file_path.exists(), self._file_path.is_file()
-        except OSError:  # E.g., a path component that is too long cannot name an existing file.
-            exists = is_file = False
+        exists = _exists(self._file_path)
+        is_file = exists and self._file_path.is_file()
         if not exists:
             raise InvalidDefinitionError(
                 "Attempt to construct ReadableDSDLFile object for file that doesn't exist.", self._file_path
